@@ -115,7 +115,9 @@ impl Middleware for Redirect {
                         }
                         Err(e) => match e {
                             http_types::url::ParseError::RelativeUrlWithoutBase => {
-                                base_url.join(location.last().as_str())?
+                                // the next relative location is relative to this one
+                                base_url = base_url.join(location.last().as_str())?;
+                                base_url.clone()
                             }
                             e => return Err(e.into()),
                         },
